@@ -34,13 +34,24 @@ type c16Op struct {
 }
 
 type c16MachScenario struct {
-	Pool []c16Param `json:"pool"`
-	Ops  []c16Op    `json:"ops"`
+	// capacity of the generator's cache (IDEMPOTENT_KEY_CACHE_SIZE); 0 = default (500).
+	// The history never has more tokens parked at once than the capacity (a fail that
+	// would exceed it is played as a success), so nothing parked may ever be lost.
+	Cache int        `json:"cache,omitempty"`
+	Pool  []c16Param `json:"pool"`
+	Ops   []c16Op    `json:"ops"`
 }
 
 func c16GenMach(t *rapid.T) c16MachScenario {
 	s := c16MachScenario{}
-	s.Pool = c16GenPool(t, 1, vt.Scale(4, 6), 12)
+	maxPool := vt.Scale(4, 6)
+	if rapid.IntRange(0, 2).Draw(t, "smallcache") == 2 {
+		s.Cache = rapid.IntRange(2, 8).Draw(t, "cache")
+		if s.Cache+2 > maxPool {
+			maxPool = s.Cache + 2 // more distinct parameter sets than cache slots
+		}
+	}
+	s.Pool = c16GenPool(t, 1, maxPool, c16MaxTags)
 	n := rapid.IntRange(1, vt.Scale(40, 120)).Draw(t, "nops")
 	issues := make([]int, len(s.Pool))
 	for i := 0; i < n; i++ {
@@ -80,9 +91,11 @@ type c16Inflight struct {
 
 func c16RunMach(c *vt.Ctx, s c16MachScenario) {
 	c16Setup()
-	g := NewIdempotentKeyGenerator()
+	g := c16NewGen(s.Cache)
 	cl := c16NewCaller()
 	m := c16NewModel()
+	atCapacity := func() bool { return s.Cache > 0 && m.parked() >= s.Cache }
+	sawCapacity, maxParked := false, 0
 	c16PoolLabels(c, s.Pool)
 	sawSplit := false
 	var live []c16Inflight
@@ -114,10 +127,17 @@ func c16RunMach(c *vt.Ctx, s c16MachScenario) {
 			}
 			f := live[i]
 			live = append(live[:i], live[i+1:]...)
-			if op.Op == c16OpFail {
+			fail := op.Op == c16OpFail
+			if fail && atCapacity() {
+				fail, sawCapacity = false, true // cache full of parked tokens: this attempt succeeds instead
+			}
+			if fail {
 				f.rollback()
 				m.fail(s.Pool[f.p], f.tok)
-				c.Trace("step %d: fail    token %s (pool[%d]) -> rolled back", step, m.name(f.tok), f.p)
+				if n := m.parked(); n > maxParked {
+					maxParked = n
+				}
+				c.Trace("step %d: fail    token %s (pool[%d]) -> rolled back (%d parked)", step, m.name(f.tok), f.p, m.parked())
 			} else {
 				m.succeed(s.Pool[f.p], f.tok)
 				c.Trace("step %d: succeed token %s (pool[%d])", step, m.name(f.tok), f.p)
@@ -127,6 +147,10 @@ func c16RunMach(c *vt.Ctx, s c16MachScenario) {
 	// quiescence: everything still in flight fails; then every returned token must be
 	// obtainable again (none lost), per parameter set.
 	for _, f := range live {
+		if atCapacity() {
+			m.succeed(s.Pool[f.p], f.tok)
+			continue
+		}
 		f.rollback()
 		m.fail(s.Pool[f.p], f.tok)
 	}
@@ -149,6 +173,18 @@ func c16RunMach(c *vt.Ctx, s c16MachScenario) {
 	}
 	if sawSplit {
 		c.Label("create from shared leading option + fresh option")
+	}
+	if s.Cache > 0 {
+		c.Label("small cache (capacity 2-8)")
+		if len(s.Pool) > s.Cache {
+			c.Label("small cache: more parameter sets than cache slots")
+		}
+		if maxParked == s.Cache {
+			c.Label("small cache: parked tokens reached the capacity")
+		}
+		if sawCapacity {
+			c.Label("small cache: fail played as success at capacity")
+		}
 	}
 	m.labels(c)
 }
